@@ -12,6 +12,7 @@ EVIDENCE = dict(assumptions=[
     'retained data: after any protocol-order prefix of revocations (top m commitment indices, SHA-256 uninterpreted, symbolic seed) every revoked secret is recoverable from the counterparty-secret store',
     'kernel only (narrow): justice claims are re-issued with adequate, monotonically rising fees and on an urgency schedule tied to the counterparty CSV height; revoked outputs are classified malleable so that fee bumping applies',
     'C06.c: one iteration of the loop of check_spend_counterparty_transaction that queues a justice claim per HTLC output of a revoked commitment; keys, scripts, cloning, the package constructors and the transaction\'s output vector are stubs',
+    'C06.d: the closure passed to retain in filter_block, <= 2 inputs per transaction; spends_watched_output, HashSet::contains / insert and compute_txid are stubs (free boolean per lookup, insertions recorded)',
     'detection of the revoked transaction, secret derivation (SHA-256), the balance-output claim, witness / script validity, HTLC-transaction follow-up, reload and block-delivery styles are outside the claim',
     'transaction weight ranges over a stated finite set; inputs <= 21e14 sat; fee estimator = arbitrary u32'])
 
